@@ -1,0 +1,13 @@
+//go:build verif
+
+// Contracts for govc (contract-based deductive verification, see /verif/DESIGN.md).
+// Comment-only file: it contains no code and is compiled only under the verif tag.
+
+package fileutil
+
+// gFlagDir: the directory in which a complete, synced flag file was last created
+//@ ghost var gFlagDir int
+
+//@ func CreateFlagFile [C16]
+//@ trusted file-system effects (create, write, file sync, close, directory sync) are outside the subset
+//@ ghostset gFlagDir := ite(result == nil, dir, old(gFlagDir))
